@@ -1,5 +1,5 @@
 import Mimium.Model.StageWitness
-import Mimium.Proofs.CoreRename
+import Mimium.Proofs.CoreRenameV
 /-!
 # C10 — hygiene of macros
 
@@ -27,8 +27,11 @@ What holds is the conditional property. Expansion is substitution of the argumen
   binder `y` is consistently renamed to `z` (`swapN y z` applied to the template) evaluates exactly like the expansion
   of the original macro — for every template, every argument code, every store and state, every run length.
 
-PARTIAL: the conditional theorem covers closure-free templates/arguments (no `lam`/`app`: their values carry names and
-need a relation instead of equality); the step from trees of `Model/Stage.lean` to core expressions is the reader
+* `C10_equivariance_with_closures`, `C10_hygienic_if_noclash_closures` — the same with `lam`/`app` in templates and
+  arguments: the renaming then also acts on the closures in values, store and state (the results are equal up to the
+  renamed binder inside closures), and the rest of the program must not mention the two names.
+
+PARTIAL: the step from trees of `Model/Stage.lean` to core expressions is the reader
 `toCoreProg` (exercised, not verified); evaluation contexts around the expansion are not part of the statement (the
 expansions evaluate identically in the environment of the hole, so the surrounding evaluation is the same function of it).
 The check searches the NoClash space on the real compiler (original vs binder-renamed macro must agree) and reports the
@@ -72,6 +75,27 @@ theorem C10_hygienic_if_noclash (P : Prog) (rt : Rt) (y z : String) (T : Expr) (
   rw [C10_rename_commutes_with_splicing (swapN y z) (swapN_inj y z) frags (noClash_frags hnc) T]
   have h := C10_equivariance P rt (swapN y z) (swapN_inj y z) fuel (substE frags T) hcf env σ st
   rwa [noClash_env hnc] at h
+
+/-- equivariance with closures, for whole programs: renaming ALL variables of a program injectively (expression,
+program, environment, closures in store and state) renames the result and changes nothing else. (This is also the
+renaming clause of C16.) -/
+theorem C10_equivariance_with_closures (P : Prog) (rt : Rt) (π : String → String) (hπ : ∀ a b, π a = π b → a = b)
+    (fuel : Nat) (e : Expr) (env : Env) (σ : Store) (st : SNode) :
+    RR (renR π) (eval fuel (renP π P) rt (renEnv π env) (renE π e) (renVL π σ) (renS π st)) (eval fuel P rt env e σ st) :=
+  (equivariantV P rt π hπ fuel).1 e env σ st
+
+/-- **Hygiene under NoClash, closures included**: if moreover the rest of the program, the store and the state do not
+mention the two names (`π = swapN y z` leaves them unchanged), the expansion of the renamed macro evaluates to the
+`π`-image of what the original expansion evaluates to (identical numbers and tuples; closures created by the template
+carry the renamed binder). -/
+theorem C10_hygienic_if_noclash_closures (P : Prog) (rt : Rt) (y z : String) (T : Expr) (frags : List (String × Expr))
+    (env : Env) (hnc : noClash y z frags env = true) (σ : Store) (st : SNode)
+    (hP : renP (swapN y z) P = P) (hσ : renVL (swapN y z) σ = σ) (hst : renS (swapN y z) st = st) (fuel : Nat) :
+    RR (renR (swapN y z)) (eval fuel P rt env (substE frags (renE (swapN y z) T)) σ st)
+      (eval fuel P rt env (substE frags T) σ st) := by
+  rw [C10_rename_commutes_with_splicing (swapN y z) (swapN_inj y z) frags (noClash_frags hnc) T]
+  have h := C10_equivariance_with_closures P rt (swapN y z) (swapN_inj y z) fuel (substE frags T) env σ st
+  rwa [noClash_env hnc, hP, hσ, hst] at h
 
 /-- the premise is not vacuous, and it is violated by the capture witness (`frags = [x ↦ y]`, binder `y`) -/
 example : noClash "y" "z" [("x", .var "w")] [("w", 0)] = true := by decide
